@@ -442,3 +442,16 @@ Proof.
   - apply rao_err, E.
   - apply rao_panic, E.
 Qed.
+
+(* ---- bundled for Props/C13.v ---- *)
+Theorem balance_ops_respect_equiv b b' a p x x' :
+  bal_equiv b b' -> map_equiv x x' ->
+  map_equiv (bal_get b a) (bal_get b' a) /\
+  bal_equiv (fst (bal_add_pa b a p)) (fst (bal_add_pa b' a p)) /\
+  map_equiv (snd (bal_add_pa b a p)) (snd (bal_add_pa b' a p)) /\
+  bal_equiv (bal_add_amount b a x) (bal_add_amount b' a x') /\
+  out_equiv sp_equiv (bal_set_partial b a p) (bal_set_partial b' a p).
+Proof.
+  intros H Hx. split; [apply bal_get_equiv, H|]. split; [apply bal_add_pa_equiv, H|].
+  split; [apply bal_add_pa_equiv, H|]. split; [apply bal_add_amount_equiv; assumption|apply bal_set_partial_equiv, H].
+Qed.
